@@ -6,6 +6,7 @@ import Golib.Proof.C12Atomic
 import Golib.Proof.C12KVSpec
 import Golib.Proof.C12Expand
 import Golib.Proof.C12Order
+import Golib.Model.C12PKV
 import Golib.Proof.C12ProgramsKV
 import Golib.Gen.FactsC12
 
@@ -379,6 +380,54 @@ theorem c12_seq_handle_current :
     ∀ (s : KV) (lim : Nat),
       (seqCall (.all lim) s).2.out = s.take (max lim 1) ∧ (seqCall (.all lim) s).1 = s :=
   ⟨by decide, fun _ _ => ⟨rfl, rfl⟩⟩
+
+/-- `c12_clear_empties` (every key type, also those whose `==` is not reflexive): as
+extracted, `Clear` REPLACES the map (`s.entries = make(…)`, event `replace` — an in-place
+`for k := range m { delete(m, k) }` would be a `write` and fail `c12_model_matches_facts`);
+the replaced map is empty whatever the key type `K` and whatever relation `eqv` plays the
+role of `==` (no law assumed — in particular entries under a NaN key, which no `delete`
+can find, are gone): `Len() = 0`, no key is found, nothing is enumerated.  Same statement
+for the machine model of the body (`seqCall .clear`). -/
+theorem c12_clear_empties :
+    Gen.C12.methods.lookup "Clear" = some [.lock, .read, .replace, .unlock] ∧
+    (∀ (K : Type) (eqv : K → K → Bool) (m : P.PKV K),
+        (P.pclear m).length = 0 ∧ ∀ k, P.pget eqv (P.pclear m) k = none) ∧
+    (∀ s : KV, (seqCall .clear s).1 = [] ∧ (seqCall .len (seqCall .clear s).1).2.n = 0) :=
+  ⟨by decide, fun _ _ _ => ⟨rfl, fun _ => rfl⟩, fun _ => ⟨rfl, rfl⟩⟩
+
+/-- `c12_nan_key` (what the clauses of C12 mean for a key that is not equal to itself — Go
+map semantics, inherited statement by statement): for every map `m` and every key `k` with
+`k ≠ k` under the key type's `==` and related to nothing else (NaN): `Get`/`Has` never
+find it, `Set` inserts a NEW entry every time (`Len` grows by one), `Delete` removes
+nothing, and `Clear` still removes every entry.  `SetNx` therefore always stores and
+`SetX` never does. -/
+theorem c12_nan_key {K : Type} (eqv : K → K → Bool) (m : P.PKV K) (k : K) (v : Int)
+    (hk : ∀ k', eqv k' k = false) :
+    P.pget eqv m k = none ∧
+    P.pset eqv m k v = m ++ [(k, v)] ∧ (P.pset eqv m k v).length = m.length + 1 ∧
+    P.pget eqv (P.pset eqv m k v) k = none ∧
+    P.pdel eqv m k = m ∧
+    P.pclear (P.pset eqv m k v) = [] := by
+  have hget : ∀ m' : P.PKV K, P.pget eqv m' k = none := by
+    intro m'
+    simp [P.pget, hk]
+  refine ⟨hget m, ?_, ?_, hget _, ?_, rfl⟩
+  · simp [P.pset, hget m]
+  · simp [P.pset, hget m]
+  · simp [P.pdel, hk]
+
+/-- Non-vacuity: the harness key type (`float64`, `struct{F float64; ID int}`): NaN meets
+the hypothesis of `c12_nan_key`; `Set(NaN,1); Set(NaN,2); Set(0,3); Set(0,4)` gives three
+entries (the two NaN entries and ONE entry for `+0`/`-0`), `Delete(NaN)` removes nothing,
+`Clear` removes all. -/
+example :
+    let nan : P.FK := { nan := true, x := 0, tag := 0 }
+    let zero : P.FK := { nan := false, x := 0, tag := 0 }
+    let m := P.pset P.keq (P.pset P.keq (P.pset P.keq (P.pset P.keq [] nan 1) nan 2) zero 3) zero 4
+    (∀ k', P.keq k' nan = false) ∧ m.length = 3 ∧ P.pget P.keq m zero = some 4 ∧
+    P.pget P.keq m nan = none ∧ (P.pdel P.keq m nan).length = 3 ∧ (P.pclear m).length = 0 := by
+  refine ⟨fun k' => by simp [P.keq], ?_⟩
+  decide
 
 /-- Corollary (`SetX` never creates a key), sequentially; by `c12_atomic` every
 concurrent history is such a sequential history. -/
